@@ -127,7 +127,7 @@ prop("C13",
           "of the 33-bit PTS wrap at minute 1590, N in 1..3) covering 2-4 minutes: every scheduled splice has exactly one carrier whose closed "
           "interval contains splice-7 s, no unscheduled events; each emsg: id, presentation time, duration and an own parse of the "
           "splice_info_section (pts mod 2^33, break duration, out_of_network, CRC-32/MPEG-2). (2) HTTP: bundled/generated assets, all video "
-          "segments over 3 minutes with scte35_N: same oracle; no emsg in audio; InbandEventStream on video only; N outside 1..3 rejected "
+          "segments over 3 minutes with scte35_N: same oracle; no emsg in audio or subtitle (stpp) segments, bundled and generated; InbandEventStream on video only; N outside 1..3 rejected "
           "with 4xx. Non-trivial = a case in which a segment spans a minute start or the announce instant equals a segment boundary.",
      quick=dict(shards=2, timeout=400), thorough=dict(shards=16, timeout=1500, pct=300), assumptions=COMMON)
 
@@ -138,7 +138,7 @@ prop("C12",
           "tfdt and duration in ms = video segment; cues extracted from the TTML / vttc samples: one cue per UTC second that intersects the "
           "segment (none for a second whose cue is over before the segment starts), begin = max(second, segment start), end within both "
           "readings of 'configured duration, clipped', text = UTC second + language + number, ordered, non-overlapping, inside; wvtt samples "
-          "tile the segment with vtte samples in the gaps; region; MPD: one text set per language mirroring the video timeline in ms. "
+          "tile the segment with vtte samples in the gaps; region; MPD: one text set per language mirroring the video timeline in ms, entry by entry with the same numbers. "
           "Non-trivial = segment with >= 2 cues or a boundary off the whole second.",
      quick=dict(shards=2, timeout=400), thorough=dict(shards=16, timeout=1500, pct=400),
      assumptions=COMMON + ["assets whose video segment boundaries are not whole milliseconds are outside the domain (the subtitle track runs on a 1000 Hz timescale)"])
@@ -190,7 +190,9 @@ prop("C15",
           "identical status/content-type/body, or 404 for an asset whose cache is damaged, or the server refuses to start; inadmissible assets "
           "are served by no server (incl. a non-ms loop described by a $Number$ MPD with @duration in seconds and no @timescale); the "
           "SegmentTimeline MPD of every served asset (incl. layouts whose raw files have a hole at the first segment boundary) is contiguous "
-          "on both servers and its listed segments are served. Non-trivial = a case with a damaged "
+          "on both servers and its listed segments are served. Generated layouts may also carry a second MPD that describes the same "
+          "representations with fewer segments (the first MPD defines them), and an audio init segment whose trex default sample duration "
+          "disagrees with the tfhd defaults of the fragments. Non-trivial = a case with a damaged "
           "cache file or an inadmissible asset; distinct by hash of the case.",
      quick=dict(shards=4, timeout=400), thorough=dict(shards=16, timeout=1500, pct=500), assumptions=COMMON)
 
@@ -229,7 +231,10 @@ prop("C17",
           "(text: rescaled time), MPD file a complete document (also for a poller that reads it while the uploads go on), same contiguous range in every adaptation set, every listed number stored "
           "for every track with equal (t,d), every track represented, newest listed number never decreases, buffers/counters/storage within "
           "the window implied by tsbd, and after the catch-up the newest listed number is the last one. The thorough tier adds all 70 "
-          "interleavings of 2 tracks x 4 segments. Non-trivial = a schedule where two tracks are >= 2 segments apart, or with a gap/duplicate.",
+          "interleavings of 2 tracks x 4 segments. Renumbered channels (TestC17Renumbered): decode time = (number + K) x duration, K in {1,3,1000}, "
+          "video + audio (+ second video) uploaded in order, audio up to 1/8 segment before or after the video grid: every listed number is stored "
+          "with the listed (t,d), is one of the uploaded segments, is listed for every track, and denotes intervals less than half a segment apart "
+          "on all tracks. Non-trivial = a schedule where two tracks are >= 2 segments apart, or with a gap/duplicate (renumbered: >= 2 numbers judged).",
      quick=dict(shards=2, timeout=400), thorough=dict(shards=16, timeout=1500, pct=150), crash_is_violation=True,
      assumptions=COMMON + ["uploads are unshifted (sequence number = decode time / duration); the MediaLive-style renumbering path is not generated",
                            "the receiver's channel goroutine is observed through the build-tag hook verif_hooks.go (VerifQuiesce, VerifChannelState)"])
@@ -264,8 +269,15 @@ prop("C16",
           "creation (only init segments may ever arrive), startNumber 1/7, receivers answering 500 to every 2nd media upload (stream goes on, no "
           "retry) or 403 to an init (no media), URLs with a statuscode_ pattern (affected segments may be absent, the rest in order and "
           "faithful), 2.002 s and 1001-based segment durations, low-latency sessions (ato 3/4, chunkdur 1/4 of a 1.0-1.6 s segment, chunked "
-          "transfer; also combined with statuscode_), an upload aborted by deleting the session, bursts of steps issued without waiting (uploads of one representation never overlap), and - thorough tier only - testpic_8s with two ~150 KiB chunks per segment towards a slow receiver. Non-trivial = a history with >= 3 effective "
-          "steps on a session with >= 2 representations.",
+          "transfer; also combined with statuscode_), an upload aborted by deleting the session, bursts of steps issued without waiting (uploads of one representation never overlap), and - thorough tier only - testpic_8s with two ~150 KiB chunks per segment towards a slow receiver. "
+          "Wall-clock part (TestC16WallClock): sessions without testNowMS on generated layouts with 200-600 ms segments, duration 1-3 s, "
+          "receiver answering at once or after 40/130/250 % of a segment duration (the sender falls behind and catches up): exactly duration/segDur "
+          "media segments per representation arrive (nothing more within four further segment durations), consecutive, starting between the live edge at "
+          "creation and at first arrival, none before its availability time, lmsg on the last one only, bodies as served. "
+          "Concurrent creation (TestC16ConcurrentCreate): 2-8 sessions with receivers of their own are created at the same instant over the REST API: "
+          "distinct ids, every receiver gets its init segments and exactly one segment per representation (the first after the live edge) for one step. "
+          "Non-trivial = a history with >= 3 effective "
+          "steps on a session with >= 2 representations (wall-clock: >= 2 segments judged).",
      quick=dict(shards=2, timeout=500), thorough=dict(shards=16, timeout=1500, pct=250), crash_is_violation=True,
      assumptions=COMMON + ["step mode (testNowMS) only: wall-clock pacing of the session loop is not exercised; chunked sessions are exercised with 1.0-1.6 s segments (each step is produced in real time)",
                            "a session with a duration is drawn only for assets whose representations share one segment grid (DESIGN O7)"])
